@@ -1,12 +1,16 @@
 ------------------------------ MODULE FaultsMC ------------------------------
 (* Model-checking wrapper for Faults.tla: the space of schedules TLC explores.  *)
-(* A schedule = up to MaxW windows drawn from the window space of the mode (all *)
-(* start < end on the coarse grid 1..TMax, every overlap / nesting / adjacency  *)
-(* shape, both creation orders) + a workload derived from the windows: jobs,    *)
-(* probes and holds at the three fine ticks around every window edge            *)
-(* (edge - 1 ns, edge, edge + 1 ns), generators in flight across every edge,    *)
-(* a backlog in front of Q, units held across activations, and an observation   *)
-(* after the last window.                                                       *)
+(* A schedule = up to maxw windows drawn from the window space of a mode (all   *)
+(* start < end on the coarse grid 1..tmax, permanent crashes, every overlap /   *)
+(* nesting / adjacency / identical-window shape, both creation orders, cancel   *)
+(* modes) + a workload derived from the windows: jobs, probes and holds at the  *)
+(* three fine ticks around every window edge (edge - 1 ns, edge, edge + 1 ns),  *)
+(* generators in flight across every edge, a backlog in front of Q, units held  *)
+(* across activations, and an observation after the last window.  Configs is a  *)
+(* set of such spaces, each with the deviation sets to run it under; all of     *)
+(* them are explored in one TLC run.  Runs with dev = {} are checked against    *)
+(* the invariants of Faults.tla; finished runs with a deviation report the      *)
+(* clauses they break (action Report, lines <<"S", dev, clause>>).              *)
 EXTENDS Faults, SequencesExt
 
 CONSTANTS Configs      \* set of [mode, maxw, tmax, cms, devs]: window space "mode", up to maxw windows on the
@@ -65,7 +69,7 @@ QJobs(ws) ==
 TouchedPairs(ws) ==
     UNION { LET w == ws[i] IN
             CASE w.k = "part" -> LET g == Groups[w.tg[1]] IN
-                                 (Range(g.a) \X Range(g.b)) \cup (Range(g.b) \X Range(g.a))
+                                 (SeqRange(g.a) \X SeqRange(g.b)) \cup (SeqRange(g.b) \X SeqRange(g.a))
               [] w.k \in {"lat", "loss"} -> { <<w.tg[1], w.tg[2]>>, <<w.tg[2], w.tg[1]>> }
               [] OTHER -> {} : i \in 1..Len(ws) }
 Probes(ws) ==
